@@ -870,7 +870,17 @@ def _run(ctx, g, counter):
         if not model_ok:
             ctx.log(log[-1500:])
     if not missing and model_ok:
-        cases, stop_cases = enclosure_cases(ctx, g)
+        try:
+            cases, stop_cases = enclosure_cases(ctx, g)
+        except Exception as e:  # noqa   (the implementation raised on an admissible position while the cases were prepared)
+            import traceback
+            tb = traceback.extract_tb(e.__traceback__)
+            where = next((f"{fr.name}:{fr.lineno}" for fr in reversed(tb) if "typhon" in fr.filename), "?")
+            mine = next((str(fr.line) for fr in reversed(tb) if fr.filename.endswith("c07.py")), "")
+            ctx.fail("failing-input", f"a conversion raised {type(e).__name__}: {e} on a position inside the stated domain "
+                     f"(in {where}; call: {mine[:160]})", case={"law": "raises", "where": where, "call": mine[:300]},
+                     signature="conversion-raises:" + type(e).__name__)
+            cases, stop_cases = [], []
         res, log = encl.enclosure_check(ctx.work / "encl", "c07", REQ, cases, shard=ctx.n(12, 30), timeout=600)
         res2, log2 = encl.enclosure_check(ctx.work / "encl", "c07stop", REQ, stop_cases, shard=6, timeout=600, prec=140)
         if log or log2:
